@@ -877,7 +877,19 @@ impl<S: BitmapSlice + Send + Sync> FileSystem for PassthroughFs<S> {
 
         if self.seal_size.load(Ordering::Relaxed) {
             let st = stat_fd(&*f, None)?;
-            self.seal_size_check(Opcode::Write, st.st_size as u64, offset, size as u64, 0)?;
+            // On a descriptor in append mode (set at open time or just now by
+            // check_fd_flags()) the kernel ignores `offset` and writes at the end of the file.
+            // Safe because this doesn't modify any memory and we check the return value.
+            let fd_flags = unsafe { libc::fcntl(f.as_raw_fd(), libc::F_GETFL) };
+            if fd_flags < 0 {
+                return Err(io::Error::last_os_error());
+            }
+            let start = if fd_flags & libc::O_APPEND != 0 {
+                st.st_size as u64
+            } else {
+                offset
+            };
+            self.seal_size_check(Opcode::Write, st.st_size as u64, start, size as u64, 0)?;
         }
 
         // Cap restored when _killpriv is dropped
